@@ -80,6 +80,7 @@ def run(ctx):
                                   {**det, "impl": str(mism[-1].get("impl"))[:300], "model": str(mism[-1].get("model"))[:300], "protocol_line": lines[k][:4000]}))
     except Exception as ex:
         ctx.broken.append({"kind": "driver", "error": str(ex)[-1500:]})
+    colrep_done = {}
     for kind, norb, ne in wf.cases(rng, list(trials.KINDS), ctx.tier):
         if ne[1] == 0 and not trials.SUPPORTED[kind]["n_dn_zero_energy"]:
             continue
@@ -131,6 +132,17 @@ def run(ctx):
                         pass
                     except Exception as ex:
                         spec_fail.append((kind + " (restricted entry)", "restricted force bias runs", {"norb": norb, "nelec": ne, "error": repr(ex)[:300]}))
+                # (b') the theorem's right-hand side (auto_force_bias_is_mixed_expectation: column replacements) with the class's OWN overlap
+                if not ronly and not colrep_done.get(kind, 0) >= 2:
+                    colrep_done[kind] = colrep_done.get(kind, 0) + 1
+                    try:
+                        ovl = lambda a, b: trials.lib_overlap(kind, trial, wd, jnp.array(a), jnp.array(b))
+                        _, fb_cr = wf.column_replacement_estimators(ovl, {"h0": 0.0, "h1": plain["h1"], "chol": plain["chol"]}, Wa, Wb)
+                        if len(fb_cr) != len(got) or not all(wf.close(a, b, 1e-7, 1e-7) for a, b in zip(got, fb_cr)):
+                            spec_fail.append((kind + " (unrestricted entry)", "force bias equals the column-replacement mixed expectation of the class's own overlap",
+                                              {"norb": norb, "nelec": ne, "got": [str(x) for x in got], "want": [str(x) for x in fb_cr]}))
+                    except Exception as ex:
+                        spec_fail.append((kind, "column-replacement expectation can be evaluated", {"norb": norb, "nelec": ne, "error": repr(ex)[:300]}))
                 # (c) logarithmic derivative of the library's own overlap along exp(x L_g): forward mode and finite differences
                 if not ronly and ne[1] > 0 and rng.random() < 0.5:   # (jvp of a 0x0 determinant is not supported by JAX)
                     L = np.asarray(plain["chol"]).reshape(-1, norb, norb)
@@ -159,7 +171,8 @@ def run(ctx):
     ctx.cov["samples"] = [lines[0][:300], json.dumps(dist)]
     ctx.cov["distribution"] = dist
     ctx.cov["skipped"] = {"walkers_with_vanishing_reference_overlap": skipped_singular[0]}
-    ctx.cov["correspondence"] = {"lean_model_cases": len(refs), "mismatches": len(mism), "spec_evaluations": evals, "public_rebuilt_batched_evaluations": pub[0]}
+    ctx.cov["correspondence"] = {"lean_model_cases": len(refs), "mismatches": len(mism), "spec_evaluations": evals, "public_rebuilt_batched_evaluations": pub[0],
+                                 "column_replacement_expectation_cases": sum(colrep_done.values())}
     ctx.assumptions += ["jax.vjp / jax.jvp return derivatives of the traced function", "theorem layer covers rhf/uhf; other kinds validated against the Fock-space expectation"]
     if mism:
         ctx.broken.append({"kind": "correspondence", "first": mism[:3], "count": len(mism)})
